@@ -97,6 +97,15 @@ def check(tier, seed):
         extra = [i for i in range(nshort) if i not in badset and judge(cases[i], io[i])]
         for i in extra[:2]:
             c.violation("ForestIndex: " + judge(cases[i], io[i]), {"component": "c16", "case": cases[i], "impl": io[i]}, True)
+        # graphs beyond the range of narrow index types (n > 2^8, n > 2^16): judged against the property text only
+        bigs = [gen.graph_tokens(g) for g in gen.big_graphs(c.rng)]
+        bio = lib.run_lines([exe], bigs, par=1, timeout=600)
+        c.extra["big_graphs"] = [int(b.split()[0]) for b in bigs]
+        for b, o in zip(bigs, bio):
+            c.count(b[:200], True, bucket="big")
+            why = judge(b, o)
+            if why:
+                c.violation("ForestIndex on a graph with %s vertices: %s" % (b.split()[0], why[:300]), {"component": "c16", "case": b, "impl": o[:2000], "judge_only": True}, True)
     return c.finish(
         assumptions=["boost::edges / out_edges of adjacency_list<vecS,vecS,undirectedS> iterate in insertion order",
                      "the BFS root order (iteration order of std::unordered_set) is recovered from the emission order of detail::spanning_forest"],
@@ -118,9 +127,10 @@ def replay(path):
     else:
         i = lib.run_lines([exe], [line], par=1)[0]
     roots = lib.fields(i, KEYS).get("ROOTS", [])
-    m = lib.run_model("c16", ["%s %d %s" % (line, len(roots), " ".join(roots))], par=1)[0]
+    if r.get("judge_only"): m = None
+    else: m = lib.run_model("c16", ["%s %d %s" % (line, len(roots), " ".join(roots))], par=1)[0]
     why = judge(line, i)
-    print("case :", line); print("model:", m); print("impl :", i); print("judge:", why)
-    if why or m != i.split(" ROOTS")[0]:
+    print("case :", line[:2000]); print("model:", (m or "-")[:2000]); print("impl :", i[:2000]); print("judge:", why)
+    if why or (m is not None and m != i.split(" ROOTS")[0]):
         print("VIOLATION property=%s replay=%s" % (PID, path)); return 1
     return 0
